@@ -387,11 +387,27 @@ ModelGuards(s, e, p) ==
                                        BSub(p.bal[e.sender][e.model.denom], s.bal[e.sender][e.model.denom]) = BNat(e.model.paid)) ]
   ELSE NoGuards
 
+(* ------------------------------------------------------------------ twins: one history, several claim schedules *)
+JudgeTwin(e) ==
+  [ C07_schedule_independent |-> Must(\A i, j \in DOMAIN e.totals : e.totals[i] = e.totals[j]) ]
+
+(* ------------------------------------------------------------------ limits that are not part of the listed properties (S_) *)
+OpenCount(s, a) == Cardinality({q \in DOMAIN Pos(s) : Pos(s)[q].owner = a /\ Pos(s)[q].open})
+ClosedCount(s, a) == Cardinality({q \in DOMAIN Pos(s) : Pos(s)[q].owner = a /\ ~Pos(s)[q].open})
+PositionLimits(p, h) ==
+  [ S_at_most_ten_open_and_ten_closed_positions |-> Must(\A a \in h.accts : OpenCount(p, a) <= 10 /\ ClosedCount(p, a) <= 10) ]
+
+(* paginated queries return every item exactly once, in order, at most `limit` per page (S_) *)
+JudgePages(e) ==
+  [ S_pagination_complete_and_ordered |-> Must(e.paged = e.all /\ \A i \in DOMAIN e.page_sizes : e.page_sizes[i] <= e.limit) ]
+
 (* ------------------------------------------------------------------ the trace *)
 Kind(e) == e.ev
 Judge(s, h, e) ==
-  LET p == e.post IN
+  LET p == IF Kind(e) \in {"twin", "q_pages"} THEN s ELSE e.post IN
   CASE Kind(e) = "reset" -> NoGuards
+    [] Kind(e) = "twin" -> JudgeTwin(e)
+    [] Kind(e) = "q_pages" -> JudgePages(e)
     [] Kind(e) = "advance" -> JudgeAdvance(s, h, e, p)
     [] Kind(e) = "fm_pos_create" -> JudgePosCreate(s, h, e, p)
     [] Kind(e) = "fm_pos_expand" -> JudgePosExpand(s, h, e, p)
@@ -416,10 +432,10 @@ Init == l = 1 /\ cnt = NoGuards /\ st = [none |-> TRUE] /\ hid = [none |-> TRUE]
 Step == /\ l <= Len(Rec)
         /\ LET e == Rec[l]
                h1 == NextHid(st, hid, e)
-               gs == Judge(st, hid, e) @@ (IF Kind(e) = "reset" THEN NoGuards ELSE Invariants(e.post, h1) @@ ModelGuards(st, e, e.post))
+               gs == Judge(st, hid, e) @@ (IF Kind(e) \in {"reset", "twin", "q_pages"} THEN NoGuards ELSE Invariants(e.post, h1) @@ ModelGuards(st, e, e.post) @@ PositionLimits(e.post, h1))
            IN /\ Report(e.i, e.sc, gs)
               /\ cnt' = Count(cnt, gs)
-              /\ st' = e.post
+              /\ st' = IF Kind(e) \in {"twin", "q_pages"} THEN st ELSE e.post
               /\ hid' = h1
         /\ l' = l + 1
 Finish == l = Len(Rec) + 1 /\ PrintCounts(cnt) /\ l' = l + 1 /\ UNCHANGED <<cnt, st, hid>>
